@@ -7,6 +7,21 @@ import (
 
 func dumpDebug(p *Prog, what string) {
 	switch what {
+	case "cha":
+		roots := []string{"scheduler.ClusterContext.schedule", "objects.Queue.TryQuotaPreemption", "objects.Application.timeoutStateTimer", "objects.Application.timeoutPlaceholderProcessing"}
+		for _, g := range []string{"vta", "cha"} {
+			r := p.Reachable(g, roots...)
+			for _, t := range []string{"objects.Node.AddAllocation", "objects.Queue.IncAllocatedResource", "objects.Node.UpdateAllocatedResource", "objects.Node.SetCapacity", "objects.Node.SetOccupiedResource", "objects.Node.UpdateForeignAllocation"} {
+				fn := p.Funcs[t]
+				fmt.Printf("%s %s reachable=%v %s\n", g, t, r.Has(fn), func() string {
+					if r.Has(fn) {
+						return r.Path(p, fn)
+					}
+					return ""
+				}())
+			}
+			fmt.Println(g, "reachable declared functions:", len(r.set))
+		}
 	case "nil":
 		na := p.Nil()
 		scope := func(fn *Func) bool {
